@@ -270,6 +270,7 @@ def main():
     if "--tier" in args:
         tier = args[args.index("--tier") + 1]
     seed = int(os.environ.get("VERIF_SEED", "20260930"))
+    os.environ["VERIF_TIER"] = tier       # read by the time budgets in py/irc.py and py/props.py
     import props
     res = Result(pid, tier, seed)
     for old in glob.glob(os.path.join(VERIF, 'replays', '%s_%s_*.json' % (pid, tier))):
